@@ -58,7 +58,7 @@ class CorpusShufflingTool:
             this is used to consider additionnal categories when shuffling the corpus, in the eventuality that the
             reference continuum does not contain any unit of a possible category.
         """
-        self.magnitude: float = magnitude
+        self.magnitude: float = float(magnitude)
         reference_annotators = reference_continuum.annotators
         if len(reference_annotators) > 1:
             logging.warning("Warning : a reference continuum with multiple annotators was given to the CST, so "
